@@ -86,7 +86,10 @@ def cases(tier, seed):
     for N in (4, 6):
         for order in ("natural", "reversed", "interleaved"):
             for opt in ("template", "no-template", "mask"):
-                out.append({"family": "loader", "N": N, "order": order, "opt": opt, "seed": seed})
+                for ncomp, nclus in ((2, 2), (2, 3), (3, 2)):
+                    if nclus == 3 and N < 6:
+                        continue
+                    out.append({"family": "loader", "N": N, "order": order, "opt": opt, "seed": seed, "ncomp": ncomp, "nclus": nclus})
     return out
 
 
@@ -178,6 +181,11 @@ def _fit(case):
     return {"nontrivial": bool(nontrivial), "outcome": f"fit|{big}|{'viol' if viol else 'ok'}", "viol": viol}
 
 
+def _third_particle(shape):
+    k = min(shape) / 12.0
+    return data.particle_box(shape, blobs=[(1.0, (0, 0, 0), max(0.8, 1.5 * k)), (0.8, (-2.0 * k, -2.0 * k, 0), max(0.7, 1.0 * k))])
+
+
 def _two_particles(shape):
     k = min(shape) / 12.0
     a = data.particle_box(shape, blobs=[(1.0, (0, 0, 0), max(0.8, 1.5 * k)), (0.8, (2.0 * k, 0, 0), max(0.7, 1.0 * k))])
@@ -216,12 +224,14 @@ def _loader(case):
     box = (8, 8, 8)
     rng = np.random.default_rng(case["seed"] + 1)
     a, b = _two_particles(box)
-    planted = [i % 2 for i in range(N)] if order != "interleaved" else [(i // 2) % 2 for i in range(N)]
+    ncomp, nclus = case.get("ncomp", 2), case.get("nclus", 2)
+    c3 = _third_particle(box)
+    planted = [i % nclus for i in range(N)] if order != "interleaved" else [(i // 2) % nclus for i in range(N)]
     tomo = (0.02 * rng.standard_normal((12, 12, 10 * N + 4))).astype(np.float32)
     pos = []
     for i in range(N):
         c = np.array([5.5, 5.5, 5.5 + 10 * i])
-        tomo[2:10, 2:10, 2 + 10 * i:10 + 10 * i] += (a if planted[i] == 0 else b)
+        tomo[2:10, 2:10, 2 + 10 * i:10 + 10 * i] += (a, b, c3)[planted[i]]
         pos.append(c)
     idx = list(range(N))
     if order == "reversed":
@@ -232,10 +242,10 @@ def _loader(case):
     ld = SubtomogramLoader(tomo, mole, order=1, output_shape=box)
     kw = {}
     if opt == "template":
-        kw["template"] = ((a + b) / 2).astype(np.float32)
+        kw["template"] = ((a + b + (c3 if nclus == 3 else 0)) / nclus).astype(np.float32)
     if opt == "mask":
         kw["mask"] = _mask("soft", box)
-    res = ld.classify(n_components=2, n_clusters=2, seed=0, **kw)
+    res = ld.classify(n_components=ncomp, n_clusters=nclus, seed=0, **kw)
     out = res.loader.molecules
     viol = []
     sig = lambda what: f"{ID}|loader.classify|{what}"  # noqa
@@ -248,7 +258,9 @@ def _loader(case):
         lab = f["cluster"].to_list()
         want = [planted[i] for i in idx]
         if not all((lab[i] == lab[j]) == (want[i] == want[j]) for i in range(N) for j in range(N)):
-            viol.append((sig("labels-not-in-molecule-order"), f"molecule order {idx}, planted classes in that order {want}, labels {lab}"))
+            viol.append((sig("labels-not-in-molecule-order"), f"molecule order {idx}, planted classes in that order {want} ({nclus} clearly separated groups, n_components={ncomp}, n_clusters={nclus}), labels {lab}"))
+        if res.classifier.n_clusters != nclus or res.classifier.n_components != ncomp:
+            viol.append((sig("parameters-not-passed"), f"asked n_components={ncomp}, n_clusters={nclus}; classifier ran with {res.classifier.n_components}, {res.classifier.n_clusters}"))
     if ld.molecules.features.columns != ["uid", "tag"]:
         viol.append((sig("parent-modified"), "classify added a column to the loader it was called on"))
     return {"nontrivial": True, "outcome": f"loader|{'viol' if viol else 'ok'}", "viol": viol}
